@@ -115,6 +115,12 @@ func EnumCase(r *rand.Rand, name string, o EnumOpts) (*Case, string) {
 	if r.Intn(3) == 0 {
 		tm = append(tm, enumMember{tp + "Extra", enumLiteral(tk, 40)})
 	}
+	// a target member that carries the NAME of a source member although the transformer maps that source member
+	// elsewhere: the configured transformer decides, not the identical name
+	if nameMode == "prefix" && !samePkg && sp != tp && r.Intn(2) == 0 {
+		tm = append(tm, enumMember{sm[0].name, enumLiteral(tk, 50)})
+		c.Feature("decoy", "samename")
+	}
 	KA := &Decl{Pkg: ea, Name: "KA", Under: Basic(sk)}
 	KB := &Decl{Pkg: eb, Name: "KB", Under: Basic(tk)}
 	for _, m := range sm {
